@@ -16,7 +16,7 @@ if os.path.exists(r1):
 if os.path.exists(r23):
     log += open(r23).read()
 # rounds 5 and 6 (the "y" and "z" seeds) and the own change m21 were run after their widenings
-for extra in ("selftest/last_run.round5.log", "selftest/last_run.round6.log", "selftest/last_run.m21.log", "selftest/last_run.round7.log"):
+for extra in ("selftest/last_run.round5.log", "selftest/last_run.round6.log", "selftest/last_run.m21.log", "selftest/last_run.round7.log", "selftest/last_run.round8.log"):
     e = os.path.join(ROOT, extra)
     if os.path.exists(e):
         log += open(e).read()
@@ -59,7 +59,7 @@ for r in rows:
     base, origin, s = describe(r["name"])
     s = (s[:150] + "…") if len(s) > 150 else s
     s = s.replace("|", "/").replace("\n", " ")
-    target = base.split("-")[0].rstrip("wxyz") if base.startswith("C") else None
+    target = base.split("-")[0].rstrip("vwxyz") if base.startswith("C") else None
     tc = ""
     if target:
         tc = "yes" if target in r["caught"] else "**no**"
